@@ -90,9 +90,10 @@ func (store *Store) Has(ctx context.Context, key string) (bool, error) {
 			return false, err
 		}
 	}
-	_, err := os.Stat(store.pathForKey(key))
+	fi, err := os.Stat(store.pathForKey(key))
 	if err == nil {
-		return true, nil
+		// A directory is never a stored block (the empty key maps onto a shard directory).
+		return !fi.IsDir(), nil
 	}
 	if os.IsNotExist(err) {
 		return false, nil
